@@ -102,7 +102,7 @@ func (check typecheck) addressExpr(n *node) error {
 			continue
 		case indexExpr, sliceExpr:
 			c := c0.child[0]
-			if isArray(c.typ) || isMap(c.typ) {
+			if isArray(c.typ) || isMap(c.typ) || (isPtr(c.typ) && c.typ.TypeOf().Elem().Kind() == reflect.Array) {
 				c0 = c
 				found = true
 				continue
